@@ -748,14 +748,22 @@ func (g *Gen) modifyKind(s *gsession, forced int) {
 	case 5: // new CP F-SEID
 		s.cp = g.cpSeid()
 		r.NewCP = s.cp
-		b := s.bearers[g.R.Intn(len(s.bearers))]
-		r.UFAR = append(r.UFAR, b.fu)
+
+		if g.R.Intn(2) == 0 { // ... alone, or together with a rule update
+			b := s.bearers[g.R.Intn(len(s.bearers))]
+			r.UFAR = append(r.UFAR, b.fu)
+		}
+
 		g.Stats["mod_newcp"]++
 	}
 
-	if len(r.CPDR)+len(r.UPDR)+len(r.CFAR)+len(r.UFAR)+len(r.CQER)+len(r.UQER)+len(r.RPDR)+len(r.RFAR)+len(r.RQER) == 0 {
-		w.Heartbeat(s.peer)
-		return
+	if len(r.CPDR)+len(r.UPDR)+len(r.CFAR)+len(r.UFAR)+len(r.CQER)+len(r.UQER)+len(r.RPDR)+len(r.RFAR)+len(r.RQER) == 0 && r.NewCP == 0 {
+		if g.R.Intn(2) == 0 {
+			w.Heartbeat(s.peer)
+			return
+		}
+
+		g.Stats["mod_empty"]++ // a modification that carries no rule at all
 	}
 
 	w.Mod(s.peer, r)
